@@ -1,9 +1,18 @@
 """C19 - invalid configuration is rejected up front with ValueError.
 
-R19.1 coverage matrix (field x constraint kind -> a validator with a guarded raise of that kind
-against the same table), R19.2 raise discipline, R19.3 message-expression resolvability,
-R19.4 flat+nested depth coverage, R19.5 boundary included (<= 0), R19.6 validator table = emitter
-table.
+The constructors of the configuration classes are interpreted (model interpreter of sa/rules/c17.py with a small model of
+pydantic's BaseModel.__init__: before-validators, after-validators, model validators, defaults) on sample values:
+
+R19.1 for every constrained field named by the property an invalid value (unknown keyword, non-positive number, bad length)
+      makes construction raise ValueError (pydantic's ValidationError included) in scalar, flat-list and nested-list position
+      (a position-specific miss is reported as R19.4, a boundary-only miss (0 accepted, negatives rejected) as R19.5), for the
+      class that declares the field and for the concrete components inheriting it;
+R19.2 every raise in validator-like functions constructs ValueError / FileNotFoundError; an exception of another type observed
+      while constructing with an invalid value is reported here too;
+R19.3 every cls./self. attribute read in a raising validator resolves;
+R19.6 the validator's legal set is contained in the emitter's table;
+R19.7 document-level checks observed by interpretation: grouping columns missing from the data (single and multi-section),
+      df xor figure, list-length mismatches, new_page without page_by, missing figure file.
 """
 from __future__ import annotations
 
@@ -23,7 +32,7 @@ MATRIX = (
     + [("TableAttributes", f, "color", None) for f in BCOLORS]
     + [("TextAttributes", "text_color", "color", None), ("TextAttributes", "text_background_color", "color", None),
        ("TextAttributes", "text_font", "member", "font-types"),
-       ("TextAttributes", "text_format", "member", "FORMAT_CODES"),
+       ("TextAttributes", "text_format", "letters", "FORMAT_CODES"),
        ("TextAttributes", "text_justification", "member", "TEXT_JUSTIFICATION_CODES"),
        ("TextAttributes", "text_font_size", "positive", None),
        ("TableAttributes", "cell_justification", "member", "*JUSTIFICATION_CODES"),
@@ -260,58 +269,666 @@ def r19_6(ctx: Ctx, rule: str = "R19.6") -> None:
     ctx.floor(rule, 5)
 
 
-def check(ctx: Ctx) -> None:
-    pm = ctx.pm
-    ctx.explain(
-        "R19.1 coverage matrix: for each constrained field named by the property a field_validator (own class or MRO) "
-        "contains a ValueError raise guarded by a test of the right kind against the right table; R19.2 every raise in "
-        "validators constructs ValueError/FileNotFoundError; R19.3 every cls./self. attribute read in a validator "
-        "resolves (class, MRO, pydantic API); R19.4 flat and nested list shapes both reach a raise; R19.5 positivity "
-        "guards include 0; R19.6 accepted set is contained in the emitter's table; R19.7 document-level cross-field "
-        "checks (grouping columns in df.columns, new_page/page_by, df xor figure, list lengths, figure file).")
-    ctx.assume("pydantic runs field validators for provided values and converts ValueError into ValidationError (a ValueError)")
-    ctx.undecided("that every invalid value at every position is rejected for concrete inputs (validators are checked structurally)")
-    # ---- R19.1 / R19.4 / R19.5
+
+
+# ================================================================================================
+# observation by interpretation: a small model of pydantic's BaseModel on top of the model interpreter
+# ================================================================================================
+from .c17 import (Bound, ExtRef, Interp, Obj, PyExc, Unknown, Unsupported, _Model,  # noqa: E402
+                  is_artefact, interp_pm, cover, METHOD, run_valuations, FS)
+import copy as _copy  # noqa: E402
+
+
+class DataFrameModel(_Model):
+    """model of a data frame: only its column names matter here"""
+
+    def __init__(self, columns, nrow=3):
+        self.columns = list(columns)
+        self.shape = (nrow, len(self.columns))
+        self.width, self.height = len(self.columns), nrow
+        self.schema = {c: "String" for c in self.columns}
+
+    def __len__(self):
+        return self.height
+
+    def __repr__(self):
+        return f"<Frame {self.columns}>"
+
+    def __deepcopy__(self, memo):
+        return self
+
+
+class PydInterp(Interp):
+    """Interp + BaseModel.__init__: model validators (before), per field: before-validators, after/plain validators (type
+    coercion is not modelled: samples already have an admitted type), defaults for absent fields, model validators (after).
+    ValueError / AssertionError raised by a validator become ValidationError (a ValueError), other exceptions propagate."""
+
+    def __init__(self, pm, externals=None, lenient=True):
+        Interp.__init__(self, pm, externals, lenient)
+        self.unmodelled_types = set()         # (class, field) whose declared type uses constructs ann_check cannot decide
+
+    def make_model(self, cv, args, kwargs):
+        if args:
+            self.throw("TypeError", "BaseModel.__init__() takes 1 positional argument")
+        o = Obj(cv, {})
+        init = self.pm.find_method(cv.ci.name, "__init__")
+        if init is not None:
+            self.call_func(self.func_val(init), [o], kwargs)
+        else:
+            self.pydantic_init(o, kwargs)
+        return o
+
+    def super_fallback(self, obj, name, rest):
+        if name == "__init__" and isinstance(obj, Obj) and "BaseModel" in obj.cls.mro_names():
+            return lambda *a, **k: self.pydantic_init(obj, k)
+        if name in ("model_post_init",):
+            return lambda *a, **k: None
+        return Interp.super_fallback(self, obj, name, rest)
+
+    def isinstance_ext(self, v, t):
+        if isinstance(v, DataFrameModel):
+            return isinstance(t, ExtRef) and t.dotted.split(".")[-1] in ("DataFrame", "LazyFrame")
+        return Interp.isinstance_ext(self, v, t)
+
+    def call_ext(self, f, args, kwargs):
+        if f.dotted.split(".")[-1] in ("Field", "PrivateAttr", "ConfigDict"):
+            return Unknown(f.dotted)
+        return Interp.call_ext(self, f, args, kwargs)
+
+    def _validators(self, cname):
+        meths = {}
+        for c in reversed(self.pm.mro(cname)):
+            ci = self.pm.classes.get(c)
+            if ci:
+                for nm, fi in ci.methods.items():
+                    meths.pop(nm, None)
+                    meths[nm] = fi
+        fv, mb, ma = [], [], []
+        for fi in meths.values():
+            vf = fi.validator_fields()
+            if vf:
+                fv.append((fi, vf[0], vf[1]))
+            mm = fi.model_validator_mode()
+            if mm == "before":
+                mb.append(fi)
+            elif mm == "after":
+                ma.append(fi)
+            elif mm is not None:
+                raise Unsupported(f"model_validator mode {mm}")
+        return fv, mb, ma
+
+    def _call_validator(self, fi, cv, v, info):
+        n = len(fi.node.args.posonlyargs) + len(fi.node.args.args)
+        f = Bound(self.func_val(fi), cv)
+        return self.call(f, [v, info][:max(n - 1, 1)], {})
+
+    # ---- declarative constraints (annotation / Field arguments): True = admitted, False = rejected, None = not modelled
+    _PLAIN = {"int", "float", "str", "bool", "bytes", "Any", "object", "Path", "Number", "complex"}
+    _SEQ = {"list", "List", "Sequence", "MutableSequence", "Iterable", "Collection", "tuple", "Tuple", "set", "Set", "frozenset", "FrozenSet"}
+    _NUMERIC = {"PositiveInt": lambda v: v > 0, "PositiveFloat": lambda v: v > 0, "NonNegativeInt": lambda v: v >= 0,
+                "NonNegativeFloat": lambda v: v >= 0, "NegativeInt": lambda v: v < 0, "NegativeFloat": lambda v: v < 0,
+                "NonPositiveInt": lambda v: v <= 0, "NonPositiveFloat": lambda v: v <= 0}
+    _BOUNDS = {"gt": lambda v, b: v > b, "ge": lambda v, b: v >= b, "lt": lambda v, b: v < b, "le": lambda v, b: v <= b,
+               "min_length": lambda v, b: len(v) >= b, "max_length": lambda v, b: len(v) <= b,
+               "multiple_of": lambda v, b: v % b == 0}
+    _FIELD_NEUTRAL = {"default", "default_factory", "description", "title", "examples", "alias", "repr", "exclude", "frozen",
+                      "validate_default", "json_schema_extra", "deprecated", "kw_only", "init", "validation_alias", "serialization_alias"}
+
+    def _field_bounds(self, call, v, module):
+        """constraints given as Field(...) keyword arguments"""
+        res = True
+        for k in call.keywords:
+            if k.arg in self._BOUNDS:
+                b = self.ev(k.value, Frame_mod(module))
+                try:
+                    if isinstance(v, bool) or v is None:
+                        continue
+                    if not self._BOUNDS[k.arg](v, b):
+                        return False
+                except TypeError:
+                    continue                      # constraint of another alternative of the union
+            elif k.arg not in self._FIELD_NEUTRAL:
+                res = None
+        return res
+
+    def ann_check(self, ann, v, module, depth=0):
+        def tri_any(rs):
+            rs = list(rs)
+            return True if any(r is True for r in rs) else (None if any(r is None for r in rs) else False)
+
+        def tri_all(rs):
+            rs = list(rs)
+            return False if any(r is False for r in rs) else (None if any(r is None for r in rs) else True)
+        if depth > 8:
+            return None
+        if isinstance(ann, ast.Constant):
+            if ann.value is None:
+                return v is None
+            if isinstance(ann.value, str):
+                try:
+                    return self.ann_check(ast.parse(ann.value, mode="eval").body, v, module, depth + 1)
+                except SyntaxError:
+                    return None
+            return None
+        if isinstance(ann, ast.BinOp) and isinstance(ann.op, ast.BitOr):
+            return tri_any([self.ann_check(ann.left, v, module, depth + 1), self.ann_check(ann.right, v, module, depth + 1)])
+        if isinstance(ann, ast.Subscript):
+            base = dotted(ann.value).split(".")[-1]
+            args = list(ann.slice.elts) if isinstance(ann.slice, ast.Tuple) else [ann.slice]
+            if base == "Optional":
+                return tri_any([v is None, self.ann_check(args[0], v, module, depth + 1)])
+            if base == "Union":
+                return tri_any(self.ann_check(a, v, module, depth + 1) for a in args)
+            if base == "Literal":
+                vals = [self.ev(a, Frame_mod(module)) for a in args]
+                return any(type(x) is type(v) and x == v for x in vals)
+            if base in self._SEQ:
+                if isinstance(v, (str, bytes)) or not isinstance(v, (list, tuple, set, frozenset)):
+                    return False
+                if base in ("tuple", "Tuple") and not (len(args) == 2 and isinstance(args[1], ast.Constant) and args[1].value is Ellipsis):
+                    if len(args) != len(v):
+                        return False
+                    return tri_all(self.ann_check(a, x, module, depth + 1) for a, x in zip(args, v))
+                return tri_all(self.ann_check(args[0], x, module, depth + 1) for x in v)
+            if base == "Annotated":
+                r = self.ann_check(args[0], v, module, depth + 1)
+                for m in args[1:]:
+                    if isinstance(m, ast.Call) and dotted(m.func).split(".")[-1] == "Field":
+                        r = tri_all([r, self._field_bounds(m, v, module)])
+                    elif isinstance(m, ast.Constant):
+                        continue
+                    elif isinstance(m, ast.Call) and dotted(m.func).split(".")[-1] in ("Gt", "Ge", "Lt", "Le", "MinLen", "MaxLen") and m.args:
+                        key = {"Gt": "gt", "Ge": "ge", "Lt": "lt", "Le": "le", "MinLen": "min_length", "MaxLen": "max_length"}[dotted(m.func).split(".")[-1]]
+                        try:
+                            if v is not None and not self._BOUNDS[key](v, self.ev(m.args[0], Frame_mod(module))):
+                                return False
+                        except TypeError:
+                            pass
+                    else:
+                        r = tri_all([r, None])
+                return r
+            if base in ("dict", "Dict", "Mapping", "MutableMapping"):
+                return isinstance(v, dict)
+            if base in ("type", "Type", "ClassVar", "Callable"):
+                return True
+            return None
+        if isinstance(ann, (ast.Name, ast.Attribute)):
+            nm = dotted(ann).split(".")[-1]
+            if nm == "None":
+                return v is None
+            if nm in self._NUMERIC:
+                return isinstance(v, (int, float)) and not isinstance(v, bool) and self._NUMERIC[nm](v)
+            if nm in self._PLAIN or nm in self._SEQ or nm in ("dict", "Dict", "Mapping", "DataFrame", "LazyFrame"):
+                return True
+            if isinstance(ann, ast.Name):
+                r = self.pm.resolve(module, nm)
+                if r is not None and r[0] == "value":            # a type alias defined in the repository
+                    return self.ann_check(r[1][1], v, r[1][0].name, depth + 1)
+                if r is not None and r[0] == "class":
+                    names = self.class_val(r[1]).mro_names()
+                    if "Enum" in names:
+                        members = [self.ev(x, Frame_mod(r[1].module)) for x in r[1].class_assigns.values()]
+                        return v in members
+                    return True
+                if r is not None and r[0] == "ext" and r[1].split(".")[0] in ("typing", "collections", "pathlib", "polars", "narwhals", "pandas", "numpy", "builtins", "os"):
+                    return True
+            return None
+        return None
+
+    def type_check(self, cname, name, decl, v):
+        """pydantic's own validation of the declared type, as far as it constrains *values*"""
+        ci = next((self.pm.classes[c] for c in self.pm.mro(cname) if c in self.pm.classes and name in self.pm.classes[c].fields), None)
+        module = ci.module if ci is not None else self.pm.cls(cname).module
+        r = self.ann_check(decl.annotation, v, module)
+        if r is not False and isinstance(decl.value, ast.Call) and dotted(decl.value.func).split(".")[-1] == "Field":
+            b = self._field_bounds(decl.value, v, module)
+            r = False if b is False else (None if (b is None or r is None) else True)
+        return r
+
+    def _as_validation_error(self, e, what):
+        names = self.exc_names(e.val)
+        if "ValueError" in names or "AssertionError" in names:
+            ve = self.make_exc("ValidationError", f"1 validation error for {what}: {self.fmt(e.val)}")
+            ve.attrs["__origin__"] = "validator"
+            ve.attrs["__cause__"] = e.val
+            return PyExc(ve)
+        return e
+
+    def pydantic_init(self, o, data):
+        cv = o.cls
+        cname = cv.ci.name
+        fv, mb, ma = self._validators(cname)
+        data = dict(data)
+        for fi in mb:
+            try:
+                data = self.call(Bound(self.func_val(fi), cv), [data], {})
+            except PyExc as e:
+                raise self._as_validation_error(e, cname)
+            if not isinstance(data, dict):
+                raise Unsupported(f"model validator {fi.short} returned {data!r}")
+        validated = {}
+        for name, decl in self.pm.all_fields(cname).items():
+            if name.startswith("_") or "ClassVar" in unparse(decl.annotation) or name == "model_config":
+                continue
+            if name in data:
+                v = data[name]
+                info = Obj(None, {"field_name": name, "data": dict(validated), "config": None, "context": None, "mode": "python"})
+                mine = [(fi, mode) for fi, flds, mode in fv if name in flds or "*" in flds]
+                try:
+                    for fi, mode in reversed(mine):
+                        if mode == "before":
+                            v = self._call_validator(fi, cv, v, info)
+                    tc = self.type_check(cname, name, decl, v)
+                    if tc is False:
+                        self.throw("ValueError", f"value {v!r} is not admitted by the declared type of {name}")
+                    if tc is None:
+                        self.unmodelled_types.add((cname, name))
+                    for fi, mode in mine:
+                        if mode in ("after", "plain"):
+                            v = self._call_validator(fi, cv, v, info)
+                        elif mode != "before":
+                            raise Unsupported(f"field_validator mode {mode}")
+                except PyExc as e:
+                    raise self._as_validation_error(e, f"{cname}.{name}")
+            else:
+                d = self.field_default(decl.value, Frame_module(cv)) if decl.value is not None else NotImplemented
+                if d is NotImplemented:
+                    ve = self.make_exc("ValidationError", f"1 validation error for {cname}: {name} Field required")
+                    ve.attrs["__origin__"] = "validator"
+                    raise PyExc(ve)
+                v = _copy.deepcopy(d)
+            validated[name] = v
+        o.attrs.update(validated)
+        o.attrs.setdefault("__fields_set__", set()).update(k for k in data if k in validated)
+        for fi in ma:
+            try:
+                self.call(Bound(self.func_val(fi), o), [], {})
+            except PyExc as e:
+                raise self._as_validation_error(e, cname)
+        return None
+
+    def model_attr(self, o, name):
+        if name == "model_fields_set":
+            return set(o.attrs.get("__fields_set__", ()))
+        if name == "model_copy":
+            def model_copy(update=None, deep=False):
+                n = Obj(o.cls, _copy.deepcopy(o.attrs) if deep else dict(o.attrs))
+                n.attrs.update(update or {})
+                return n
+            return model_copy
+        if name == "model_dump":
+            return lambda **k: {k2: v for k2, v in o.attrs.items() if not k2.startswith("_")}
+        return NotImplemented
+
+    def model_class_attr(self, cv, name):
+        if name == "model_fields" and "BaseModel" in cv.mro_names():
+            out = {}
+            for nm, decl in self.pm.all_fields(cv.ci.name).items():
+                if nm.startswith("_"):
+                    continue
+                d = self.field_default(decl.value, Frame_module(cv)) if decl.value is not None else None
+                out[nm] = Obj(None, {"default": None if d is NotImplemented else d, "annotation": Unknown("annotation"), "is_required": lambda d=d: d is NotImplemented})
+            return out
+        return NotImplemented
+
+
+def Frame_mod(module):
+    from .c17 import Frame
+    return Frame(module)
+
+
+def Frame_module(cv):
+    from .c17 import Frame
+    return Frame(cv.ci.module)
+
+
+def _shared_interp(pm):
+    """one interpreter per program model for constructor runs: module-level tables (colour table, code tables) are evaluated once;
+    constructors do not mutate module state"""
+    it = getattr(pm, "_c19_interp", None)
+    if it is None:
+        it = pm._c19_interp = PydInterp(pm)
+    return it
+
+
+def _construct(pm, cls, kwargs):
+    """construct cls(**kwargs) under every valuation of unknown conditions -> [outcome]"""
+    it = _shared_interp(pm)
+
+    def make():
+        cv = it.class_val(pm.cls(cls))
+        return it, (lambda: it.call(cv, [], _copy.deepcopy(kwargs))), it
+    out = [o for _, o, _ in run_valuations(make)]
+    _STATS["constructions"] += 1
+    _STATS["runs"] += len(out)
+    _STATS["forks"] += len(out) - 1
+    _STATS["classes"].add(cls)
+    return out
+
+
+_STATS = {"constructions": 0, "runs": 0, "forks": 0, "classes": set(), "samples": {}}
+
+
+def _is_value_error(o) -> bool:
+    return o[0] == "raise" and "ValueError" in (o[1].cls.mro_names() if o[1].cls is not None else [])
+
+
+def _table_values(it, pm, name):
+    """keys of the module-level table NAME (wherever it is defined)"""
+    for mi in pm.modules.values():
+        if name in mi.assigns:
+            v = it.global_name(mi.name, name)
+            if isinstance(v, dict):
+                return list(v)
+            if isinstance(v, (list, tuple, set, frozenset)):
+                return list(v)
+    return None
+
+
+def _samples(it, pm, kind, expected):
+    """(valid values, invalid values) for a constraint kind"""
+    if kind in ("member", "letters"):
+        if expected == "font-types":
+            try:
+                tab = it.call(it.class_attr(it.class_val(pm.cls("Utils")), "_font_type"), [], {})["type"]
+                valid = list(tab)
+            except (Unsupported, PyExc, KeyError, TypeError, AnalysisError):
+                valid = list(range(1, 11))
+            return valid[:3], [x for x in (0, max(valid) + 1, 99, -1) if x not in valid]
+        if isinstance(expected, str):
+            names = [expected] if not expected.startswith("*") else ["ROW_" + expected[1:]]
+            valid = None
+            for nm in names:
+                valid = _table_values(it, pm, nm)
+                if valid is not None:
+                    break
+            if valid is None:
+                raise Unsupported(f"table {expected} not found")
+        else:
+            valid = list(expected)
+        if kind == "letters":
+            letters = [x for x in valid if isinstance(x, str) and len(x) == 1]
+            return ([letters[0], letters[0] + letters[-1]] if letters else [""]), ["~", (letters[0] if letters else "") + "~"]
+        nonempty = [x for x in valid if isinstance(x, str) and x]
+        invalid = ["zz-invalid"]
+        if len(nonempty) >= 2 and nonempty[0] + nonempty[1] not in valid:
+            invalid.append(nonempty[0] + nonempty[1])
+        return (nonempty or valid)[:2], invalid
+    if kind == "color":
+        return ["red", "blue"], ["not-a-colour", "redd~"]
+    if kind == "positive":
+        return [1, 2], [-1, 0]
+    if kind == "length":
+        return [[1.0] * expected], [[1.0] * (expected - 1), [1.0] * (expected + 1), []]
+    raise Unsupported("constraint kind " + kind)
+
+
+def _positions(kind, good, bad):
+    """(position label, value) for an invalid element `bad` placed among valid elements `good`"""
+    if kind == "length":
+        return [("whole", bad)]
+    return [("scalar", bad), ("flat", [good, bad]), ("flat", [bad]), ("nested", [[good, good], [good, bad]]), ("nested", [[bad]])]
+
+
+def _valid_in(kind, good):
+    if kind == "length":
+        return {"whole": good}
+    return {"scalar": good, "flat": [good, good], "nested": [[good, good], [good, good]]}
+
+
+def r19_1(ctx: Ctx) -> None:
+    pm = interp_pm(ctx.pm)
+    it0 = PydInterp(pm)
+    concrete = {}
     for cls, field, kind, expected in MATRIX:
         if pm.field_decl(cls, field) is None:
             raise AnalysisError(f"matrix row {cls}.{field}: field no longer declared")
-        vs = validators_for(pm, cls, field)
-        found = None
-        for fi in vs:
-            ok, test = _kind_ok(pm, fi, kind, expected)
-            if ok:
-                found = (fi, test)
-                break
-        where = (found[0].where() if found else (vs[0].where() if vs else pm.cls(cls).path + ":0"))
-        ctx.instance("R19.1", where, f"{cls}.{field}: {kind} {expected if expected else ''} -> " +
-                     (f"{found[0].short} guards `{found[1]}`" if found else "NO validator"))
-        if not found:
-            weak = None
-            if kind == "positive":
-                for fi in vs:
-                    weak = weak or _weak_positive(fi)
-            ctx.violation("R19.1" if not weak else "R19.5", f"{cls}.{field}", f"{kind} " + (weak or "missing"), where,
-                          f"{cls}.{field}: no validator raises ValueError for the '{kind}' constraint"
-                          + (f" (guard `{weak}` excludes the boundary 0)" if weak else "")
-                          + (f" against {expected}" if expected else ""))
+        where = pm.cls(cls).path + f":{pm.field_decl(cls, field).lineno}"
+        try:
+            valid, invalid = _samples(it0, pm, kind, expected)
+        except Unsupported as e:
+            ctx.gap("R19.1", f"{cls}.{field}: no sample values ({e})")
             continue
-        ok, why = _depth_ok(pm, cls, field, found[0])
-        ctx.instance("R19.4", found[0].where(), f"{cls}.{field}: {why}")
-        if not ok:
-            ctx.violation("R19.4", f"{cls}.{field}", why, found[0].where(),
-                          f"{cls}.{field}: validator {found[0].short} does not reach a raise for every list depth ({why})")
+        good = valid[0]
+        _STATS["samples"][f"{kind}:{expected}"] = {"valid": [repr(x) for x in valid], "invalid": [repr(x) for x in invalid]}
+        if cls not in concrete:
+            subs = [c for c in pm.subclasses(cls) if c != cls and pm.is_pydantic(c) and not pm.subclasses(c)[1:]]
+            concrete[cls] = subs
+        classes = [cls] + [c for c in concrete[cls] if c != cls]
+        n_checked = 0
+        accepted = {}      # (class, position) -> [invalid values accepted]
+        rejected = set()
+        wrong_exc = {}
+        for ci_, c in enumerate(classes):
+            # which positions does this class support? (a valid value in that position constructs)
+            try:
+                supported = {}
+                for pos, val in _valid_in(kind, good).items():
+                    outs = _construct(pm, c, {field: val})
+                    supported[pos] = all(o[0] == "return" for o in outs)
+                for v2 in valid[1:]:
+                    pos0 = next((p for p, ok in supported.items() if ok), None)
+                    if pos0 is not None and not all(o[0] == "return" for o in _construct(pm, c, {field: _valid_in(kind, v2)[pos0]})):
+                        ctx.gap("R19.1", f"{c}.{field}: the valid value {v2!r} is rejected in the model (sample set or pydantic model out of date)")
+                if not any(supported.values()):
+                    if ci_ == 0:
+                        outs = _construct(pm, c, {field: list(_valid_in(kind, good).values())[0]})
+                        ctx.gap("R19.1", f"{c}({field}=<valid value {good!r}>) cannot be constructed in the model: {outs[0][1]!r}")
+                    continue
+                bads = invalid if ci_ == 0 else invalid[-1:]
+                for bad in bads:
+                    seen_pos = set()
+                    for pos, val in _positions(kind, good, bad):
+                        if not supported.get(pos) or (ci_ > 0 and pos in seen_pos):
+                            continue
+                        seen_pos.add(pos)
+                        for o in _construct(pm, c, {field: val}):
+                            n_checked += 1
+                            if o[0] == "return":
+                                accepted.setdefault((c, pos), []).append(bad)
+                            elif _is_value_error(o):
+                                rejected.add((c, pos, repr(bad)))
+                            elif is_artefact(o[1]):
+                                ctx.gap("R19.1", f"{c}({field}={val!r}): interpretation ended with {o[1]!r}")
+                            else:
+                                wrong_exc[(c, pos)] = o[1]
+            except Unsupported as e:
+                ctx.gap("R19.1", f"{c}({field}=...): construction is outside the interpreted subset: {e}")
+                continue
+        ctx.instance("R19.1", where, f"{cls}.{field}: {kind} {expected if expected else ''}: {n_checked} constructions with invalid values "
+                     f"({', '.join(map(repr, invalid))}) over {len(classes)} class(es); accepted: {sorted({f'{c}/{p}' for c, p in accepted}) or 'none'}")
+        for (c, pos), exc in sorted(wrong_exc.items()):
+            en = exc.cls.mro_names()[0] if exc.cls is not None else "?"
+            ctx.violation("R19.2", f"{cls}.{field}", f"raises {en}", where,
+                          f"{c}({field}=<invalid value in {pos} position>) raises {exc!r}; invalid configuration must raise ValueError")
+        if not accepted:
+            continue
+        unm = sorted(f"{c}.{f}" for c, f in _shared_interp(pm).unmodelled_types if f == field and any(cc == c for (cc, _p) in accepted))
+        if unm:
+            ctx.gap("R19.1", f"{cls}.{field}: invalid sample values are accepted in the model, but the declared type of {unm[0]} uses constructs "
+                             "whose validation by pydantic is not modelled")
+            continue
+        by_pos = {}
+        for (c, pos), vals in accepted.items():
+            by_pos.setdefault(pos, set()).update(map(repr, vals))
+        all_pos = {p for (c, p, _) in rejected} | set(by_pos)
+        # classify: boundary only / some positions only / not validated at all
+        vals = set().union(*by_pos.values())
+        ex_c, ex_pos = sorted(accepted)[0]
+        if kind == "positive" and vals == {"0"}:
+            ctx.violation("R19.5", f"{cls}.{field}", "positive: 0 accepted", where,
+                          f"{ex_c}({field}=0) is accepted while negative values are rejected: the positivity check excludes the boundary 0")
+        elif any(p not in by_pos for p in all_pos) and any(True for (c, p, _) in rejected):
+            ctx.violation("R19.4", f"{cls}.{field}", f"{kind} not checked in {sorted(by_pos)} position", where,
+                          f"{cls}.{field}: invalid values {sorted(vals)} are rejected in {sorted(all_pos - set(by_pos)) or 'some classes'} position but accepted in "
+                          f"{sorted(by_pos)} position (e.g. by {ex_c})")
+        else:
+            ctx.violation("R19.1", f"{cls}.{field}", f"{kind} missing", where,
+                          f"{cls}.{field}: construction accepts the invalid value(s) {sorted(vals)} (e.g. {ex_c}, {ex_pos} position); "
+                          f"no ValueError for the '{kind}' constraint" + (f" against {expected}" if expected else ""))
     ctx.floor("R19.1", 37)
-    # ---- R19.2 / R19.3 over all validator-like functions
+
+
+def _body_kwargs(**k):
+    return k
+
+
+def r19_7(ctx: Ctx) -> None:
+    """document-level cross-field checks, observed on interpreted construction"""
+    pm = interp_pm(ctx.pm)
+    cols_a, cols_b = ["alpha", "beta", "gamma"], ["delta", "epsilon", "alpha"]
+    doc_fi = pm.func("RTFDocument.validate_column_names")
+    if doc_fi.model_validator_mode() != "after":
+        ctx.violation("R19.7", doc_fi.short, "not a model_validator(after)", doc_fi.where(), "validate_column_names is no longer run by pydantic after construction")
+
+    def build(it, spec):
+        """spec: ('doc', {df: cols|[cols..]|None, body: dict|[dict..], figure: bool, extra...})"""
+        RTFBody = it.class_val(pm.cls("RTFBody"))
+        kw = {}
+        df = spec.get("df")
+        if df is not None:
+            kw["df"] = [DataFrameModel(c) for c in df] if df and isinstance(df[0], list) else DataFrameModel(df)
+        body = spec.get("body")
+        if body is not None:
+            kw["rtf_body"] = [it.call(RTFBody, [], dict(b)) for b in body] if isinstance(body, list) else it.call(RTFBody, [], dict(body))
+        if spec.get("figure"):
+            kw["rtf_figure"] = it.call(it.class_val(pm.cls("RTFFigure")), [], {})
+        return kw
+
+    def construct(spec):
+        def make():
+            it = PydInterp(pm)
+            fs = FS(it, {"/work/fig.png": "PNG"})
+            it.externals.update(fs.externals())
+            return it, (lambda: it.call(it.class_val(pm.cls("RTFDocument")), [], build(it, spec))), it
+        return [o for _, o, _ in run_valuations(make)]
+
+    ok_body = {"group_by": ["alpha"], "page_by": ["beta"], "subline_by": ["gamma"]}
+    # ---- the model must be able to construct valid documents, otherwise nothing can be concluded
+    usable = True
+    for label, spec in (("single section", {"df": cols_a, "body": {}}), ("single section with grouping", {"df": cols_a, "body": ok_body}),
+                        ("two sections", {"df": [cols_a, cols_b], "body": [ok_body, {"page_by": ["delta"]}]})):
+        try:
+            outs = construct(spec)
+        except Unsupported as e:
+            ctx.gap("R19.7", f"RTFDocument construction ({label}) is outside the interpreted subset: {e}")
+            usable = False
+            continue
+        for o in outs:
+            ctx.instance("R19.7", doc_fi.where(), f"valid document ({label}): {o[0]} {o[1] if o[0] == 'raise' else ''}")
+            if o[0] == "raise":
+                ctx.gap("R19.7", f"a valid document ({label}) cannot be constructed in the model: {o[1]!r}")
+                usable = False
+    if usable:
+        cases = []
+        for grp in ("group_by", "page_by", "subline_by"):
+            for missing in ("alp", "nonexistent", "beta, gamma"):
+                cases.append((f"{grp} column {missing!r} missing from the data", grp, {"df": cols_a, "body": {grp: [missing]}}))
+            cases.append((f"{grp} column missing, listed after a valid one", grp, {"df": cols_a, "body": {grp: ["alpha", "zzz"]}}))
+            others = {g: [c] for g, c in zip(("group_by", "page_by", "subline_by"), cols_a) if g != grp}
+            cases.append((f"{grp} column missing while the other grouping options are valid", grp, {"df": cols_a, "body": {**others, grp: ["zzz"]}}))
+            cases.append((f"{grp} column of section 2 present only in section 1", grp,
+                          {"df": [cols_a, cols_b], "body": [{}, {grp: ["beta"]}]}))
+        cases += [("neither df nor figure", "df-or-figure", {}), ("df together with a figure", "df-and-figure", {"df": cols_a, "body": {}, "figure": True}),
+                  ("df list with a single body", "body-list", {"df": [cols_a, cols_b], "body": {}}),
+                  ("df list and body list of different lengths", "length", {"df": [cols_a, cols_b], "body": [{}, {}, {}]}),
+                  ("df list longer than the body list", "length", {"df": [cols_a, cols_b, cols_a], "body": [{}, {}]})]
+        for label, key, spec in cases:
+            try:
+                outs = construct(spec)
+            except Unsupported as e:
+                ctx.gap("R19.7", f"RTFDocument construction ({label}) is outside the interpreted subset: {e}")
+                continue
+            for o in outs:
+                ctx.instance("R19.7", doc_fi.where(), f"{label}: {o[0]} {(o[1].cls.mro_names()[0] if o[1].cls else '?') if o[0] == 'raise' else ''}")
+                if o[0] == "return":
+                    ctx.violation("R19.7", "RTFDocument", f"{key} accepted", doc_fi.where(),
+                                  f"RTFDocument is constructed although {label}; no ValueError is raised")
+                elif not _is_value_error(o):
+                    if is_artefact(o[1]):
+                        ctx.gap("R19.7", f"{label}: interpretation ended with {o[1]!r}")
+                    else:
+                        ctx.violation("R19.2", "RTFDocument", f"{key} raises {o[1].cls.mro_names()[0] if o[1].cls else '?'}", doc_fi.where(),
+                                      f"{label}: construction raises {o[1]!r} instead of ValueError")
+    # ---- new_page without page_by
+    b = pm.func("RTFBody._validate_page_by_logic") if pm.has_func("RTFBody._validate_page_by_logic") else pm.func("RTFBody.__init__")
+    try:
+        ok_new = _construct(pm, "RTFBody", {"new_page": True, "page_by": ["alpha"]})
+        bad_new = _construct(pm, "RTFBody", {"new_page": True})
+        for o in ok_new:
+            if o[0] == "raise":
+                ctx.gap("R19.7", f"RTFBody(new_page=True, page_by=[...]) cannot be constructed in the model: {o[1]!r}")
+        for o in bad_new:
+            ctx.instance("R19.7", b.where(), f"RTFBody(new_page=True) without page_by: {o[0]}")
+            if o[0] == "return":
+                ctx.violation("R19.7", "RTFBody", "new_page/page_by", b.where(), "RTFBody no longer rejects new_page=True without page_by at construction")
+            elif not _is_value_error(o) and not is_artefact(o[1]):
+                ctx.violation("R19.2", "RTFBody", "new_page/page_by raises " + o[1].cls.mro_names()[0], b.where(), f"RTFBody(new_page=True) raises {o[1]!r} instead of ValueError")
+    except Unsupported as e:
+        ctx.gap("R19.7", f"RTFBody construction is outside the interpreted subset: {e}")
+    # ---- figure file existence
+    f = pm.func("RTFFigure.validate_figure_data") if pm.has_func("RTFFigure.validate_figure_data") else pm.func("RTFFigure.__init__") if pm.has_func("RTFFigure.__init__") else None
+    fwhere = f.where() if f is not None else pm.cls("RTFFigure").path + ":1"
+
+    def fig(kwargs):
+        def make():
+            it = PydInterp(pm)
+            fs = FS(it, {"/work/fig.png": "PNG", "/work/fig2.png": "PNG"})
+            it.externals.update(fs.externals())
+            kw = {k: ([fs.Path(x[5:]) if isinstance(x, str) and x.startswith("PATH:") else x for x in v] if isinstance(v, list)
+                      else (fs.Path(v[5:]) if isinstance(v, str) and v.startswith("PATH:") else v)) for k, v in kwargs.items()}
+            return it, (lambda: it.call(it.class_val(pm.cls("RTFFigure")), [], kw)), it
+        return [o for _, o, _ in run_valuations(make)]
+    try:
+        for o in fig({"figures": "/work/fig.png"}) + fig({"figures": ["/work/fig.png", "PATH:/work/fig2.png"]}):
+            if o[0] == "raise":
+                ctx.gap("R19.7", f"RTFFigure with existing files cannot be constructed in the model: {o[1]!r}")
+        for label, kw in (("a missing file", {"figures": "/work/missing.png"}), ("a missing file given as Path", {"figures": "PATH:/work/missing.png"}),
+                          ("a missing file after an existing one", {"figures": ["/work/fig.png", "/work/missing.png"]})):
+            for o in fig(kw):
+                names = o[1].cls.mro_names() if o[0] == "raise" and o[1].cls is not None else []
+                ctx.instance("R19.7", fwhere, f"RTFFigure with {label}: {o[0]} {names[:1]}")
+                if o[0] == "return":
+                    ctx.violation("R19.7", "RTFFigure", "figure existence", fwhere, f"RTFFigure with {label} is constructed; no FileNotFoundError at construction")
+                elif "FileNotFoundError" not in names and "ValueError" not in names and not is_artefact(o[1]):
+                    ctx.violation("R19.2", "RTFFigure", f"figure existence raises {names[0] if names else '?'}", fwhere, f"RTFFigure with {label} raises {o[1]!r}")
+    except Unsupported as e:
+        ctx.gap("R19.7", f"RTFFigure construction is outside the interpreted subset: {e}")
+    ctx.floor("R19.7", 10)
+
+
+def r19_2_3(ctx: Ctx) -> None:
+    pm = ctx.pm
     vfuncs = []
     for fi in pm.iter_funcs():
         if fi.cls in VALIDATOR_CLASSES and (fi.validator_fields() or fi.model_validator_mode()
                                             or fi.name.startswith(("_validate", "validate_")) or fi.name in ("_set_default",)):
             vfuncs.append(fi)
+    def ok_exception(fi, r) -> bool | None:
+        """True: a ValueError/FileNotFoundError (sub)class; False: another exception class; None: not a class construction
+        (bare re-raise, a caught exception object, a computed value)"""
+        e = r.exc
+        if e is None:
+            return None
+        target = e.func if isinstance(e, ast.Call) else e
+        en = dotted(target).split(".")[-1]
+        if en in OK_EXC:
+            return True
+        res = pm.resolve(fi.module, en) if isinstance(target, ast.Name) else None
+        if res is not None and res[0] == "class":
+            return any(b in ("ValueError", "FileNotFoundError") for b in pm.mro(res[1].name))
+        if res is None and en and en[0].isupper() and (en.endswith(("Error", "Exception", "Warning")) or en in ("KeyboardInterrupt", "StopIteration", "SystemExit")):
+            return False                                  # a builtin / imported exception class other than the admitted ones
+        if res is not None and res[0] == "ext" and en.endswith(("Error", "Exception")):
+            return "ValidationError" in en or "PydanticCustomError" in en
+        return None
+
     for fi in vfuncs:
         for r, tests in guarded_raises(fi):
             en = exc_name(r)
-            ctx.instance("R19.2", fi.where(r), f"{fi.short}: raise {en}")
-            if en not in OK_EXC:
+            verdict = ok_exception(fi, r)
+            ctx.instance("R19.2", fi.where(r), f"{fi.short}: raise {en}" + ("" if verdict is not None else " (not an exception class construction: not judged)"))
+            if verdict is False:
                 ctx.violation("R19.2", fi.short, f"raise {en}", fi.where(r),
                               f"{fi.short} raises {en}; invalid configuration must raise ValueError")
         # R19.3: cls./self. attribute reads anywhere in a raising validator must resolve
@@ -319,7 +936,7 @@ def check(ctx: Ctx) -> None:
             for a in walk_no_nested(fi.node):
                 if isinstance(a, ast.Attribute) and isinstance(a.value, ast.Name) and a.value.id in ("cls", "self"):
                     ok = (pm.field_decl(fi.cls, a.attr) is not None or pm.find_method(fi.cls, a.attr) is not None
-                          or a.attr in PYDANTIC_API
+                          or a.attr in PYDANTIC_API or a.attr.startswith("model_")
                           or any(a.attr in pm.classes[c].class_assigns for c in pm.mro(fi.cls) if c in pm.classes))
                     ctx.instance("R19.3", fi.where(a), f"{fi.short}: {unparse(a)} {'resolves' if ok else 'UNRESOLVED'}")
                     if not ok:
@@ -327,101 +944,33 @@ def check(ctx: Ctx) -> None:
                                       f"{fi.short}: `{unparse(a)}` on the raising path does not resolve on {fi.cls} "
                                       "(AttributeError is raised instead of ValueError)")
     ctx.floor("R19.2", 30)
-    # ---- R19.6
+
+
+def check(ctx: Ctx) -> None:
+    ctx.explain(
+        "R19.1/R19.4/R19.5 the constructors of the configuration classes are interpreted with a model of pydantic's BaseModel.__init__ "
+        "(before/after field validators, model validators, defaults): for each constrained field named by the property invalid sample "
+        "values in scalar, flat and nested position must make construction raise ValueError, for the declaring class and the concrete "
+        "components inheriting the field; R19.2 every raise in validators constructs ValueError/FileNotFoundError; R19.3 every cls./self. "
+        "attribute read in a validator resolves (class, MRO, pydantic API); R19.6 accepted set is contained in the emitter's table; "
+        "R19.7 RTFDocument / RTFBody / RTFFigure are constructed in the model with grouping columns missing from the data (substring and "
+        "multi-section cases included), df xor figure, mismatched list lengths, new_page without page_by, missing figure files.")
+    ctx.explain("Method for R19.1/R19.4/R19.5/R19.7: " + METHOD + ". pydantic is a model of BaseModel.__init__ (model validators, before/after "
+                "field validators in pydantic's order, defaults, ValueError/AssertionError -> ValidationError, value constraints expressed by "
+                "Literal / Field bounds / Annotated / Enum); type coercion is not modelled. The verdict is a BOUNDED SAMPLE: per constraint kind a "
+                "fixed set of invalid values (listed in coverage.interpretation.samples) in scalar / flat / nested position, for the declaring "
+                "class and each concrete leaf class; R19.7 a fixed list of document configurations.")
+    ctx.assume("pydantic runs field validators for provided values and converts ValueError into ValidationError (a ValueError)")
+    ctx.assume("the pydantic model is faithful for values that already have an admitted type; data frames are models exposing column names only; "
+               "figure files live in an in-memory file-system model")
+    ctx.undecided("that every invalid value at every position is rejected: only the sample values per constraint kind are decided (bounded sample, not "
+                  "exhaustive); pydantic's own type validation and coercion; fields not named in the matrix")
+    _STATS.update({"constructions": 0, "runs": 0, "forks": 0, "classes": set(), "samples": {}})
+    r19_1(ctx)
+    r19_2_3(ctx)
     r19_6(ctx)
-    # ---- R19.7 document-level cross-field checks
     r19_7(ctx)
-
-
-def r19_7(ctx: Ctx) -> None:
-    pm = ctx.pm
-    fi = pm.func("RTFDocument._validate_section_columns")
-    params = [a.arg for a in fi.node.args.args]
-    for grp in ("group_by", "page_by", "subline_by"):
-        hit = None
-        for r, tests in guarded_raises(fi):
-            if exc_name(r) not in OK_EXC:
-                continue
-            for test, in_body in tests:
-                for c in ast.walk(test):
-                    if isinstance(c, ast.Compare) and len(c.ops) == 1 and isinstance(c.ops[0], ast.NotIn) and in_body:
-                        cont = _resolve_local(fi, c.comparators[0])
-                        # the loop variable must range over body.<grp>
-                        loop = None
-                        p = getattr(r, "_parent", None)
-                        while p is not None and p is not fi.node:
-                            if isinstance(p, ast.For):
-                                loop = p
-                                break
-                            p = getattr(p, "_parent", None)
-                        if loop is None:
-                            continue
-                        it_txt = unparse(_resolve_local(fi, loop.iter))
-                        if grp in it_txt or (isinstance(loop.iter, ast.Name) and _loops_over_group(fi, loop, grp)):
-                            hit = (c, cont)
-        desc = f"{fi.short}: {grp} membership test " + (f"`{unparse(hit[0])}` container `{unparse(hit[1])}`" if hit else "MISSING")
-        ctx.instance("R19.7", fi.where(hit[0]) if hit else fi.where(), desc)
-        if not hit:
-            ctx.violation("R19.7", fi.short, f"{grp} missing", fi.where(),
-                          f"{fi.short}: no ValueError for a {grp} column missing from the data")
-            continue
-        cont = hit[1]
-        is_cols = isinstance(cont, ast.Attribute) and cont.attr == "columns"
-        is_coll = isinstance(cont, ast.Call) and dotted(cont.func) in ("set", "list", "tuple", "frozenset") and \
-            cont.args and isinstance(cont.args[0], ast.Attribute) and cont.args[0].attr == "columns"
-        if not (is_cols or is_coll):
-            ctx.violation("R19.7", fi.short, f"{grp} container {unparse(cont)}", fi.where(hit[0]),
-                          f"{fi.short}: {grp} membership is tested against `{unparse(cont)}`, not the frame's column list "
-                          "(a string container makes it a substring test)")
-    # both call sites of _validate_section_columns in validate_column_names (single + per section)
-    v = pm.func("RTFDocument.validate_column_names")
-    calls = [c for c in walk_no_nested(v.node) if isinstance(c, ast.Call) and dotted(c.func).endswith("_validate_section_columns")]
-    ctx.instance("R19.7", v.where(), f"validate_column_names calls _validate_section_columns {len(calls)}x")
-    if len(calls) < 2:
-        ctx.violation("R19.7", v.short, "section validation call missing", v.where(),
-                      "validate_column_names must validate grouping columns for single- and multi-section documents")
-    need = {
-        "df-and-figure": lambda t: "self.df is not None" in t and "self.rtf_figure is not None" in t,
-        "neither": lambda t: "self.df is None" in t and "self.rtf_figure is None" in t,
-        "body-list": lambda t: "isinstance(self.rtf_body, list)" in t,
-        "length": lambda t: "len(self.df) != len(self.rtf_body)" in t or "len(self.rtf_body) != len(self.df)" in t,
-    }
-    got = {k: False for k in need}
-    for r, tests in guarded_raises(v):
-        if exc_name(r) not in OK_EXC:
-            continue
-        txt = " && ".join(unparse(t) for t, b in tests if b)
-        for k, pred in need.items():
-            if pred(txt):
-                got[k] = True
-    for k, ok in got.items():
-        ctx.instance("R19.7", v.where(), f"validate_column_names: cross-field check '{k}' {'present' if ok else 'MISSING'}")
-        if not ok:
-            ctx.violation("R19.7", v.short, k, v.where(), f"validate_column_names: no ValueError for '{k}'")
-    mode = v.model_validator_mode()
-    if mode != "after":
-        ctx.violation("R19.7", v.short, "not a model_validator(after)", v.where(), "validate_column_names is no longer run by pydantic after construction")
-    # new_page without page_by: raise reachable from RTFBody.__init__
-    b = pm.func("RTFBody._validate_page_by_logic")
-    ok = any(exc_name(r) in OK_EXC and any("page_by is None" in unparse(t) and "new_page" in unparse(t) for t, _ in tests)
-             for r, tests in guarded_raises(b))
-    chain = _calls(pm.func("RTFBody.__init__"), "_set_default") and _calls(pm.func("RTFBody._set_default"), "_validate_page_by_logic")
-    ctx.instance("R19.7", b.where(), f"RTFBody: new_page-without-page_by raise {'present' if ok else 'MISSING'}, reached from __init__: {chain}")
-    if not (ok and chain):
-        ctx.violation("R19.7", b.short, "new_page/page_by", b.where(), "RTFBody no longer rejects new_page=True without page_by at construction")
-    # figure file existence
-    f = pm.func("RTFFigure.validate_figure_data")
-    ok = any(exc_name(r) == "FileNotFoundError" and any("exists" in unparse(t) for t, _ in tests) for r, tests in guarded_raises(f))
-    ctx.instance("R19.7", f.where(), f"RTFFigure: missing file raise {'present' if ok else 'MISSING'}")
-    if not ok or f.model_validator_mode() is None:
-        ctx.violation("R19.7", f.short, "figure existence", f.where(), "RTFFigure no longer raises FileNotFoundError for a missing figure file at construction")
-    # margin: the post-default length check must not be the only one (defaults replace an empty list first)
-    ctx.floor("R19.7", 10)
-
-
-def _loops_over_group(fi, loop: ast.For, grp: str) -> bool:
-    return False
-
-
-def _calls(fi: FuncInfo, name: str) -> bool:
-    return any(isinstance(c, ast.Call) and dotted(c.func).endswith(name) for c in walk_no_nested(fi.node))
+    cover(ctx, constructions=_STATS["constructions"], interpreted_runs=_STATS["runs"], forks_on_unknown_conditions=_STATS["forks"],
+          classes_constructed=sorted(_STATS["classes"]), samples=dict(_STATS["samples"]), positions=["scalar", "flat list", "nested list"],
+          verdict_kind="bounded sample (not exhaustive over values)",
+          fork_enumeration="all valuations of the unknown conditions consulted (at most 48 runs per construction, else analysis gap)")
